@@ -353,6 +353,36 @@ odd, `2|v − rep| ≤ δ` is impossible for that class: `no_integer_representat
 def Attained (values : List Int) (m : List (Int × Nat)) (δ : Int) : Prop :=
   δ = 0 ∨ ∃ v ∈ values, ∃ w ∈ values, w - v = δ ∧ lookupIdx m v = lookupIdx m w
 
+/-! ### The allowed numbers of classes
+
+A `char_info_word` of a TFM file (TFtoPL §11, TeX §543–544) has 8 bits for the width index,
+4 bits each for the height and depth indices and 6 bits for the italic-correction index, and
+entry 0 of every table is reserved for the value zero (`width[0] = height[0] = depth[0] =
+italic[0] = 0`). PLtoTF therefore shortens the lists to at most 255 / 15 / 15 / 63 non-zero
+classes (PLtoTF "Doing it": `shorten(width, 255)`, `shorten(height, 15)`, `shorten(depth, 15)`,
+`shorten(italic, 63)`). These are constants of the specification, not read from the code. -/
+
+/-- `kind`: 0 width, 1 height, 2 depth, 3 italic correction. -/
+def tfmLimit : Nat → Nat
+  | 0 => 255     -- 2^8 − 1
+  | 1 => 15      -- 2^4 − 1
+  | 2 => 15      -- 2^4 − 1
+  | _ => 63      -- 2^6 − 1
+
+/-- Checker for one dimension table of a TFM file produced from a property list: `charVals` are
+the values the characters have in the property list, `table` the table read back from the
+serialised file, `idx` the `(value, index read back)` pairs of the characters. Heights, depths
+and italic corrections equal to zero are not compressed (index 0); widths always are.
+Result: the three clauses of `checkCompress` for the **true** limit `tfmLimit kind`, and
+`zeros`: every zero height/depth/italic has index 0. An index that wrapped on serialisation
+shows as `near = false` (index 0 or a far representative). -/
+def checkTfmTable (kind : Nat) (charVals : List Int) (table : List Int) (idx : List (Int × Nat)) :
+    Bool × Bool × Bool × Bool :=
+  let vals := if kind = 0 then charVals else charVals.filter (· != 0)
+  let r := checkCompress vals (tfmLimit kind) table idx
+  let zeros := kind == 0 || charVals.all (fun v => v != 0 || lookupIdx idx v == some 0)
+  (r.1, r.2.1, r.2.2, zeros)
+
 /-! ## Next-larger chains (TFtoPL §84, PLtoTF §110–113) -/
 
 /-- A functional graph: association list `smaller ↦ larger`, first match wins (`nlEdges`
